@@ -111,7 +111,8 @@ def yaml_load(stream):
         # PyYAML's constructors fail with these for scalars that a resolver matched but that do not denote a value (0x_, ._, !!int x, ...)
         raise yaml.YAMLError(f"{type(ex).__name__}: {ex}") from ex
     if isinstance(value, dict) and value and all(v is None for v in value.values()):
-        if len(value) == 1 and stream.strip() == next(iter(value.keys())) + ":":
+        key = next(iter(value.keys()))
+        if len(value) == 1 and isinstance(key, str) and stream.strip() == key + ":":
             value = stream
         else:
             keys = set(stream.strip(" {}").replace(" ", "").split(","))
